@@ -16,7 +16,7 @@ Record Aux (s:state) : Prop := mkAux {
   aux_sleep : forall i aw, pc (s i) = Sleep aw -> newer (s i) = false ->
                 aw = match tmin (nexts (s i)) with Some m => m | None => until_t st i end;
   aux_cur   : forall i, quiet_pc (pc (s i)) = true -> cur (s i) = None;
-  aux_bound : forall i c, In c (nexts (s i)) -> thd c < until st
+  aux_bound : forall i c, (i < nsims st)%nat -> In c (nexts (s i)) -> thd c < until st
 }.
 
 (* tmin facts *)
@@ -53,7 +53,7 @@ Proof.
     assert (Hle : tle m t = true) by (unfold tle; rewrite Elt; reflexivity).
     rewrite (tmin_cons_ge _ _ _ E Hle). rewrite (A i aw Hpc Hnew), E. reflexivity.
   - intros j Hq. rewrite pc_schedule in Hq. rewrite cur_schedule. apply B; exact Hq.
-  - intros j c Hc. destruct (nexts_schedule _ _ _ _ _ Hc) as [H|[-> ->]]; eauto.
+  - intros j c Hj Hc. destruct (nexts_schedule _ _ _ _ _ Hc) as [H|[-> ->]]; eauto.
 Qed.
 
 Lemma aux_ext (s s':state) : (forall j, pc (s' j) = pc (s j) /\ nexts (s' j) = nexts (s j) /\ cur (s' j) = cur (s j) /\ newer (s' j) = newer (s j)) -> Aux s -> Aux s'.
@@ -61,7 +61,7 @@ Proof.
   intros H [A B C]. split.
   - intros i aw Hpc Hn. destruct (H i) as (a&b&c&d). rewrite b. apply A; congruence.
   - intros i Hq. destruct (H i) as (a&b&c&d). rewrite c. apply B. congruence.
-  - intros i c Hc. destruct (H i) as (a&b&_&_). rewrite b in Hc. eauto.
+  - intros i c Hi Hc. destruct (H i) as (a&b&_&_). rewrite b in Hc. eauto.
 Qed.
 
 Lemma aux_advance (s:state) i s' : advance st s i = Ok s' -> Aux s -> Aux s'.
@@ -96,7 +96,7 @@ Proof.
       apply A; congruence.
   - intros j Hq. rewrite Hcu. destruct (Nat.eq_dec j i) as [->|Hj]; [exact Hc|].
     apply B. destruct (loop_eval_pc st s i j Hj) as (a&_&_). congruence.
-  - intros j c Hin. rewrite Hn in Hin. eauto.
+  - intros j c Hj Hin. rewrite Hn in Hin. eauto.
 Qed.
 
 Lemma aux_wake (s:state) : Aux s -> Aux (wake_sleepers st s).
@@ -124,7 +124,7 @@ Proof.
   { destruct HA as [A B C]. split.
     - intros j aw. unfold s1, upd. destruct (Nat.eqb_spec j i); [subst j; simpl|]; apply A.
     - intros j. unfold s1, upd. destruct (Nat.eqb_spec j i); [subst j; simpl; auto|apply B].
-    - intros j c. unfold s1, upd. destruct (Nat.eqb_spec j i); [subst j; simpl|]; apply C. }
+    - intros j c Hj. unfold s1, upd. destruct (Nat.eqb_spec j i); [subst j; simpl|]; apply C; exact Hj. }
   assert (HA3 : Aux s3) by (eapply aux_advance_all; [exact E|apply aux_notify; exact HA1]).
   apply aux_wake. apply aux_loop_eval; auto.
   (* cur (s3 i) = None *)
@@ -160,7 +160,7 @@ Proof.
     intros H; injection H as <-. destruct HA as [A B C]. split.
     + intros j aw. unfold upd. destruct (Nat.eqb_spec j i); [subst j; simpl; discriminate|apply A].
     + intros j. unfold upd. destruct (Nat.eqb_spec j i); [subst j; simpl; discriminate|apply B].
-    + intros j c. unfold upd. destruct (Nat.eqb_spec j i); [subst j; simpl; intros Hin; apply (C i); eapply in_removeT; eauto|apply C].
+    + intros j c Hj. unfold upd. destruct (Nat.eqb_spec j i); [subst j; simpl; intros Hin; apply (C i _ Hj); eapply in_removeT; eauto|apply C; exact Hj].
   - destruct (pc (s i)) eqn:Epc; try discriminate.
     destruct (cur (s i)) as [t|] eqn:Ecur; try discriminate.
     set (s1 := upd s i _).
@@ -168,7 +168,7 @@ Proof.
     { destruct HA as [A B C]. split.
       - intros j aw. unfold s1, upd. destruct (Nat.eqb_spec j i); [subst j; simpl; discriminate|apply A].
       - intros j. unfold s1, upd. destruct (Nat.eqb_spec j i); [subst j; simpl; discriminate|apply B].
-      - intros j c. unfold s1, upd. destruct (Nat.eqb_spec j i); [subst j; simpl|]; apply C. }
+      - intros j c Hj. unfold s1, upd. destruct (Nat.eqb_spec j i); [subst j; simpl|]; apply C; exact Hj. }
     assert (Hgo : forall s2, Aux s2 -> pc (s2 i) = InStep ->
               (if outreq st i
                then Ok (upd s2 i (mkSim InData (prog (s2 i)) (nexts (s2 i)) (cur (s2 i)) (last (s2 i)) (newer (s2 i))))
@@ -177,7 +177,7 @@ Proof.
       - intros H; injection H as <-. split.
         + intros j aw. unfold upd. destruct (Nat.eqb_spec j i); [subst j; simpl; discriminate|apply A].
         + intros j. unfold upd. destruct (Nat.eqb_spec j i); [subst j; simpl; discriminate|apply B].
-        + intros j c. unfold upd. destruct (Nat.eqb_spec j i); [subst j; simpl|]; apply C.
+        + intros j c Hj. unfold upd. destruct (Nat.eqb_spec j i); [subst j; simpl|]; apply C; exact Hj.
       - intros H. eapply aux_finish; eauto. split; auto. }
     assert (Hpc1 : pc (s1 i) = InStep) by (unfold s1; rewrite upd_same; reflexivity).
     destruct nxt as [v|].
